@@ -23,6 +23,9 @@ type c12Net struct {
 	fl   [c12Max]*Flooder
 	rm   [c12Max]*routing.Manager
 	q    [c12Max][c12Max][]*protocol.Frame
+	// ghost counters for C11
+	onLink    [c12Max][c12Max][c12Max]int
+	processed [c12Max][c12Max]int
 }
 
 type c12Sender struct {
@@ -140,7 +143,16 @@ func c12Run(nw *c12Net) int {
 		if err != nil {
 			return delivered
 		}
-		nw.fl[t.to].HandleRouteAdvertise(fID(t.from), adv.OriginAgent, adv.OriginDisplayName, adv.Sequence, adv.Routes, adv.EncPath, adv.SeenBy)
+		o := c12Idx(adv.OriginAgent)
+		// C11: one announcement per origin in this run, so per link and per agent at most one copy / one processing
+		nw.onLink[t.from][t.to][o]++
+		verif_assert(nw.onLink[t.from][t.to][o] <= 1, "C11/announcement-sent-twice-over-one-link")
+		ok := nw.fl[t.to].HandleRouteAdvertise(fID(t.from), adv.OriginAgent, adv.OriginDisplayName, adv.Sequence, adv.Routes, adv.EncPath, adv.SeenBy)
+		if ok {
+			nw.processed[t.to][o]++
+			verif_assert(o != t.to, "C11/origin-processed-its-own-announcement")
+			verif_assert(nw.processed[t.to][o] <= 1, "C11/announcement-processed-twice-by-one-agent")
+		}
 		delivered++
 		verif_assert(delivered <= 64, "C12/flood-does-not-quiesce")
 	}
